@@ -131,7 +131,7 @@ class Result:
 class Eval:
     _uid = 0
 
-    def __init__(self, prog, fn, args=None, inline=None, depth=0, maxdepth=3, params=None, shared=None):
+    def __init__(self, prog, fn, args=None, inline=None, depth=0, maxdepth=3, params=None, shared=None, assume=None):
         self.P = prog
         self.fn = fn
         self.inline = inline or (lambda name: False)
@@ -144,6 +144,7 @@ class Eval:
         self.fid = self.shared["fid"]
         self.res = Result()
         self.cond_at = {}
+        self.assume = assume
 
     # ------------------------------------------------------------ helpers
     def uid(self):
@@ -680,6 +681,8 @@ class Eval:
 
     def run(self):
         fn = self.fn
+        if self.depth == 0:
+            Eval._uid = 0          # call ids are deterministic per top-level evaluation
         succ, pred_, reach = fn.cfg()
         order = fn.rpo()
         self.idx = {b: i for i, b in enumerate(order)}
@@ -831,8 +834,16 @@ class Eval:
                 outs[tgt] = None
             else:
                 self.cond_at[b] = d
-                for s2 in fn.succs(b):
-                    outs[s2] = ("sw", d, t)
+                av = self.assume(d) if self.assume is not None else None
+                if av is not None:
+                    tgt = t[3]
+                    for v, bb2 in t[2]:
+                        if v == int(av):
+                            tgt = bb2
+                    outs[tgt] = None
+                else:
+                    for s2 in fn.succs(b):
+                        outs[s2] = ("sw", d, t)
         elif t[0] == "assert":
             cnd = self.operand(env, t[1])
             self.res.asserts.append((b, t[3], cnd, bool(t[2]), [self.operand(env, o) for o in t[5]]))
